@@ -207,6 +207,7 @@ Definition fetch_ok (scion : bool) (st : ostate) (sc : script) (o : fobs) : opti
 Definition store_ok (st : ostate) (c : bytes) : ostate :=
   if negb (cookie_fits c) then st else     (* an unusable cookie is not kept *)
   if os_last_ok st then
+    if 8 <=? Z.of_nat (length (os_pool st)) then st else   (* the pool holds at most 8 cookies through StoreCookie *)
     {| os_pool := os_pool st ++ [c]; os_c2s := os_c2s st; os_s2c := os_s2c st; os_server := os_server st;
        os_port := os_port st; os_last_ok := true; os_free := os_free st |}
   else {| os_pool := []; os_c2s := []; os_s2c := []; os_server := []; os_port := 0; os_last_ok := false; os_free := true |}.
@@ -259,3 +260,36 @@ Definition cand_ok (scion : bool) (final : kdata) (c : list op * list fobs) : bo
 
 Definition C20_overlap_ok (scion : bool) (cands : list (list op * list fobs)) (final : kdata) : bool :=
   existsb (cand_ok scion final) cands.
+
+(* ---------- the record framing of RFC 8915 for records of any body length ----------
+   RFC 8915, 4.: every record is a 4-byte header and a body as long as the header's length field
+   says, whatever the record type.  A script whose records have 15-bit types and bodies below
+   65536 bytes and no raw tail is framed: read by the framing, the bytes it sends ARE its record
+   list, also when a next-protocol, algorithm, port or error record has a body of another length
+   than 2 (scan reads the first two bytes of such a body).  The clause "succeeds only if the peer
+   ... terminates the record stream properly without an error record or an unrecognised critical
+   record", with at least one cookie and algorithm 15, then speaks about that record list. *)
+Definition rec_framed (r : krec) : bool :=
+  let t := r_type r in
+  (0 <=? t) && (t <? 32768) && forallb byte_b (r_body r) && (Z.of_nat (length (r_body r)) <? 65536).
+
+Definition sc_framed (sc : script) : bool :=
+  forallb rec_framed (sc_recs sc) && match sc_tail sc with [] => true | _ => false end.
+
+(* an exchange (one connection) that succeeded: the framed message must be acceptable *)
+Definition framed_step_ok (sc : script) (o : fobs) : bool :=
+  if sc_framed sc && (o_conns o =? 1) && (o_err o =? 0) then stream_accepted (sc_recs sc) (sc_cut sc) else true.
+
+Fixpoint framed_hist_ok (ops : list op) (obs : list fobs) : bool :=
+  match ops with
+  | [] => true
+  | OpStore _ :: rest => framed_hist_ok rest obs
+  | OpFetch sc :: rest =>
+    match obs with
+    | [] => true
+    | o :: obs' => framed_step_ok sc o && framed_hist_ok rest obs'
+    end
+  end.
+
+Definition C20_framed_ok (scion : bool) (ops : list op) (obs : list fobs) : bool :=
+  C20_ok scion ops obs && framed_hist_ok ops obs.
